@@ -548,6 +548,34 @@ def rule_r11(ctx, rid="C20.R11"):
                 else:
                     ctx.r.violation(rid, key_of(f, None, "loop-setting-dropped::" + setting), "%s runs the I/O loop with %s = %s: the accepted setting %s is ignored by this server flavour" % (f.qual, par, norm(e) if e is not None else "the loop's default", setting), f.loc(c))
     ctx.r.floor(rid, n, 2, "I/O loop calls in server run() methods")
+    # ... and the loop honours them: the poll()-based pass is selected only when use_poll holds, the select()-based one
+    # whenever it does not; the timeout handed to each pass is the loop's own parameter
+    g = cfg_of(loopf)
+    sel = {}
+    for nd in g.nodes:
+        if nd.kind == "stmt" and isinstance(nd.ast, ast.Assign) and isinstance(nd.ast.value, ast.Name) and nd.ast.value.id in ("poll", "poll2"):
+            sel.setdefault(nd.ast.value.id, []).append(nd)
+    if not sel.get("poll") or not sel.get("poll2"):
+        raise AnalysisError("anchor vanished: the selection of poll / poll2 in wasyncore.loop")
+    up_true = [b for b in g.nodes if b.kind == "branch" and isinstance(b.ast, ast.Name) and b.ast.id == "use_poll" and b.polarity is True]
+    up_false = [b for b in g.nodes if b.kind == "branch" and isinstance(b.ast, ast.Name) and b.ast.id == "use_poll" and b.polarity is False]
+    ok2 = up_true and all(g.path(g.entry, x, avoid=up_true, follow_exc=False) is None for x in sel["poll2"])
+    ok1 = up_false and all(g.path(b, x, follow_exc=False) is None for b in up_false for x in sel["poll2"]) and all(any(g.path(b, x, follow_exc=False) is not None for x in sel["poll"]) for b in up_false)
+    if ok1 and ok2:
+        ctx.r.ok(rid, "wasyncore.loop selects poll2 only under use_poll and poll otherwise", loopf.loc(sel["poll2"][0].ast))
+    else:
+        ctx.r.violation(rid, key_of(loopf, None, "use-poll-not-honoured"), "wasyncore.loop does not select its pass by use_poll (poll2 reachable without it, or with it false): asyncore_use_poll is accepted and not applied", loopf.loc(sel["poll2"][0].ast))
+    passvars = {t.id for nd in sel["poll"] + sel["poll2"] for t in nd.ast.targets if isinstance(t, ast.Name)}
+    rebound = any(isinstance(x, ast.Name) and x.id == "timeout" and isinstance(x.ctx, ast.Store) for x in ast.walk(loopf.node))
+    npass = 0
+    for c in ast.walk(loopf.node):
+        if isinstance(c, ast.Call) and isinstance(c.func, ast.Name) and c.func.id in passvars:
+            npass += 1
+            if c.args and isinstance(c.args[0], ast.Name) and c.args[0].id == "timeout" and not rebound:
+                ctx.r.ok(rid, "the pass is called with the loop's timeout", loopf.loc(c))
+            else:
+                ctx.r.violation(rid, key_of(loopf, None, "loop-timeout-not-passed"), "wasyncore.loop calls its pass as %s: asyncore_loop_timeout is accepted and not applied" % norm(c)[:50], loopf.loc(c))
+    ctx.r.floor(rid, npass, 1, "calls of the selected pass in wasyncore.loop")
 
 
 RULES = [rule_r1, rule_r2, rule_r3, rule_r4, rule_r5, rule_r6, rule_r7, rule_r9, rule_r10, rule_r11]
